@@ -88,10 +88,15 @@ def gen_chain(rng, root, n_steps=None, allow_gpg=False, fmt_mode="mixed", n_insp
     ch.owners = owners
     funcs_pool = [k for k in pool if k not in owners]
     ch.layout_fmt = pick_fmt(rng, fmt_mode)
+    ch.readme = rng.choice(["", "", "", "Caf\u00e9 pipeline", "cafe\u0301 (decomposed)"])
     if final is None:
         final = {"foo": b"foo-%d\n" % rng.randrange(100), "sub/bar": b"bar\n"}
         if rng.random() < 0.3:
             final["\u00fcn\u00ef.txt"] = "\u00e9\n".encode("utf8")
+        if rng.random() < 0.25:
+            # a name in decomposed form (as some file systems and tools hand them out): another string than its composed
+            # spelling, in a file name, in signed bytes, everywhere
+            final["docs/cafe\u0301.txt"] = b"c\n"
     if first is None:
         first = {"src/a.c": b"int a;\n", "README": b"hi\n"}
     states = gen_states(rng, n_steps, first, final)
@@ -406,11 +411,35 @@ def mutate_scalar(v, rng, bool_int_swap=True):
     return v
 
 
+def _rename_artifact_key(body, rng):
+    """Renames one recorded path (a KEY of the materials / products dictionary of a link): to its other Unicode
+    normalisation form if that is another string, else by one character. Returns a description or None."""
+    import unicodedata
+    cands = [(f, k) for f in ("materials", "products") if isinstance(body.get(f), dict) for k in body[f]]
+    if not cands or body.get("_type") != "link":
+        return None
+    nf = [(f, k) for f, k in cands if unicodedata.normalize("NFC", k) != k or unicodedata.normalize("NFD", k) != k]
+    f, k = rng.choice(nf or cands)
+    other = [x for x in (unicodedata.normalize("NFC", k), unicodedata.normalize("NFD", k)) if x != k]
+    new = other[0] if other else k + "x"
+    if new in body[f]:
+        return None
+    body[f] = {(new if kk == k else kk): vv for kk, vv in body[f].items()}
+    return {"path": [f, k], "old": k, "new": new, "renamed_key": True}
+
+
 def edit_payload_leaf(content, rng, path=None):
     """Single-leaf edit of the signed content of a metadata file (either
     format). Returns (new content, description) or None."""
     import base64
     c = copy.deepcopy(content)
+    if path is None and rng.random() < 0.12:
+        body = c["signed"] if "signed" in c else json.loads(base64.b64decode(c["payload"]))
+        d = _rename_artifact_key(body, rng)
+        if d:
+            if "signed" not in c:
+                c["payload"] = base64.b64encode(json.dumps(body, sort_keys=True).encode("utf8")).decode()
+            return c, d
     if "signed" in c:
         ls = list(leaves(c["signed"]))
         if not ls:
